@@ -61,11 +61,11 @@ Take ==
                              after |-> wire.after
                                        \/ (wire.final /\ written # <<>>)
                                        \/ \E i, j \in DOMAIN written : i < j /\ IsFinal(written[i])]
-                 /\ UNCHANGED <<cl, owed, budget, nextid, panicked, allocq>>
+                 /\ UNCHANGED <<cl, owed, budget, nextid, panicked, allocq, sv>>
          [] t = 0 ->
               IF w.phase = "steady" /\ ~w.gone
               THEN /\ w' = PullAll(w, 0)
-                   /\ UNCHANGED <<cl, srvin, owed, budget, wire, nextid, panicked, allocq>>
+                   /\ UNCHANGED <<cl, srvin, owed, budget, wire, nextid, panicked, allocq, sv>>
               ELSE /\ panicked' = BugCh0Unreachable
                    /\ UNCHANGED <<vars, allocq>>
          [] t = 101 ->
@@ -77,19 +77,19 @@ Take ==
                    /\ cl' = Put([cl EXCEPT !["conn"].busy = FALSE],
                                 HName(n), [Idle EXCEPT !.busy = TRUE, !.op = "open", !.id = cl["conn"].id, !.sync = TRUE])
                    /\ allocq' = Tail(allocq)
-                   /\ UNCHANGED <<srvin, owed, budget, wire, nextid, panicked>>
+                   /\ UNCHANGED <<srvin, owed, budget, wire, nextid, panicked, sv>>
               ELSE /\ panicked' = BugCh0Unreachable
                    /\ UNCHANGED <<vars, allocq>>
          [] OTHER ->
               \* handle_channel_readable: a dropped channel's wake-up is ignored
               /\ w' = IF Has(w.slots, t) THEN PullAll(w, t) ELSE w
-              /\ UNCHANGED <<cl, srvin, owed, budget, wire, nextid, panicked, allocq>>
+              /\ UNCHANGED <<cl, srvin, owed, budget, wire, nextid, panicked, allocq, sv>>
 
 \* end of the wake-up: the completion test
 EndBatch ==
     /\ batch = <<>> /\ ~w.gone /\ Done(w)
     /\ w' = Exit(w)
-    /\ UNCHANGED <<cl, srvin, owed, budget, wire, nextid, batch, panicked, allocq>>
+    /\ UNCHANGED <<cl, srvin, owed, budget, wire, nextid, batch, panicked, allocq, sv>>
 
 \* open_channel: the request travels through the allocate-channel queue
 OpenReq(n) ==
@@ -98,16 +98,16 @@ OpenReq(n) ==
        THEN UNCHANGED <<cl, allocq, nextid>>          \* the send fails at once: an error, no hang
        ELSE /\ allocq' = Append(allocq, n)
             /\ cl' = [cl EXCEPT !["conn"] = [busy |-> TRUE, op |-> "open", id |-> nextid, ncalls |-> @.ncalls,
-                                             res |-> <<"none", 0>>, sync |-> FALSE]]
+                                             res |-> <<"none", 0>>, sync |-> FALSE, consumed |-> FALSE]]
             /\ nextid' = nextid + 1
-    /\ UNCHANGED <<w, srvin, owed, budget, wire, batch, panicked>>
+    /\ UNCHANGED <<w, srvin, owed, budget, wire, batch, panicked, sv>>
 
 \* the caller of open_channel is released with an error once channel 0's slot is gone
 OpenFails ==
     /\ cl["conn"].busy /\ cl["conn"].op = "open" /\ w.hs["conn"].dead
     /\ cl' = [cl EXCEPT !["conn"].busy = FALSE, !["conn"].res = <<"err", "EventLoopDropped">>]
     /\ allocq' = <<>>
-    /\ UNCHANGED <<w, srvin, owed, budget, wire, nextid, batch, panicked>>
+    /\ UNCHANGED <<w, srvin, owed, budget, wire, nextid, batch, panicked, sv>>
 
 Lift(A) == A /\ UNCHANGED <<batch, panicked, allocq>>
 
